@@ -234,6 +234,20 @@ def gen_cases(tier, seed):
         sp['family'] = 'window'
         sp['entry'] = 'future.cancel'
         cases.append(sp)
+    # the manager as a whole is cancelled by ANOTHER user thread while a submitting call has handed its transfer over and has not returned yet
+    # (held at each statement after the hand-over): the transfer belongs to the manager - it is cancelled like every other
+    from .. import yieldinj as _yi
+
+    sub_line = _yi.find_line('manager.py', 'self._submission_executor.submit(')
+    after = [l for l in _yi.all_lines(['manager.py']) if l[2] == 'TransferManager._submit_transfer' and sub_line is not None and l[1] > sub_line + 1]
+    for line in after:
+        for kind, extra in (gen.KINDS if not quick else rng.sample(gen.KINDS, 4)):
+            t = dict({'kind': kind, 'size': rng.choice([5, 20])}, **extra)
+            cases.append({'seed': rng.randrange(1 << 30), 'min_part': 8, 'family': 'manager-cancel-during-submit', 'entry': 'shutdown_cancel', 'cancel_msg': 'bye',
+                          'config': dict(multipart_threshold=16, multipart_chunksize=8, io_chunksize=4, max_request_concurrency=2), 'transfers': [t],
+                          'plan': {'gate': {'match': '/s3:', 'phase': 'before', 'count': 1, 'after_cancel_begin': True}},
+                          'yield': {'p': 0.0, 'window': {'file': 'manager.py', 'lineno': line[1], 'name': f'manager.py:{line[1]}:{line[2]}', 'nth': 0,
+                                                         'how': 'manager_cancel', 'target': 0, 'wait': 0.5}}})
     # several user threads submit to one manager at overlapping times (one of them preempted inside the manager's bookkeeping
     # update), every transfer is held at its first step, then the manager as a whole is told to stop: every one of the transfers
     # is in flight and must end with the cancellation, none may go on to issue requests
@@ -344,6 +358,14 @@ def evaluate(obs):
                     viol.append(oracles.V(f'{x.label}: one of {len(obs.xfers)} transfers submitted from different threads, none of which had begun when {how} '
                                           f'cancelled the manager\'s transfers, yet it went on ({len(reqs)} request(s)) and reports {x.outcome}',
                                           **oracles.base_mech(obs, x), entry=how, sym='unstarted-transfer-escaped-cancel', ntransfers=len(obs.xfers)))
+        if fam == 'manager-cancel-during-submit' and gate.get('after_cancel_begin') and x.future is not None:
+            # the transfer had been handed to the manager and its first request (if any was begun) was held back until the manager-wide
+            # cancel had begun: it was unfinished then, so it reports the cancellation
+            stats['held_at_cancel'] = stats.get('held_at_cancel', 0) + 1
+            if x.outcome == 'success':
+                viol.append(oracles.V(f'{x.label}: the manager was cancelled by another thread while the call that submitted this transfer had not returned yet; '
+                                      f'the transfer, unfinished at that moment, went on and reports success', **oracles.base_mech(obs, x), entry=how,
+                                      sym='escaped-manager-cancel-during-submit'))
         if targeted or how not in ('future.cancel', 'kbi_result'):
             viol += oracles.cancel_oracle(obs, x, how, not_started=not_started, targeted=targeted)
             viol += oracles.stable_outcome_oracle(obs, x)
